@@ -44,7 +44,7 @@ PROPERTIES["C12"] = dict(
     ],
 )
 
-INFER_FILES = ["inference/zz_verif_c05.go", "inference/zz_verif_c05l2.go", "inference/zz_verif_c06.go", "inference/zz_verif_c04.go", "inference/zz_verif_registry.go",
+INFER_FILES = ["inference/zz_verif_c05.go", "inference/zz_verif_c05l2.go", "inference/zz_verif_c06.go", "inference/zz_verif_c04.go", "inference/zz_verif_c15.go", "inference/zz_verif_registry.go",
                "annotation::annotation/zz_verif_export.go"]
 
 PROPERTIES["C05"] = dict(
@@ -168,5 +168,25 @@ PROPERTIES["C04"] = dict(
              quick=dict(params=dict(TRIGGERS=3)), thorough=dict(params=dict(TRIGGERS=4)), args=dict(sample_every=1)),
         dict(pkg="inference", files=INFER_FILES, entry="Harness_C04_K4",
              quick=dict(params=dict(SP=2, NP=1)), thorough=dict(params=dict(SP=2, NP=2)), args=dict(sample_every=499)),
+    ],
+)
+
+PROPERTIES["C15"] = dict(
+    explanation="symx executes the real String() methods of the annotation key kinds and the real (*primitivizer).site from SSA on two keys over the same declaring object; names are symbolic "
+                "identifiers, indices and call-site line/column symbolic integers, key kinds a choice. fmt.Sprintf with symbolic operands becomes str.++ (bounded integers as ite-chains over their "
+                "decimal forms) and 'equal identities => same key' is one solver query per kind pair.",
+    bounds=dict(quick="7 function-based key kinds pairwise (49 ordered pairs) and 4 variable-based kinds + type names; identifiers <=3 chars; indices and call-site line/column in 0..3; re-keying: name <=4 chars, arbitrary positions",
+                thorough="same with indices and line/column in 0..11 (covers one- versus two-digit confusions)"),
+    outside=["objects without an object path seen with imprecise positions (the re-keying mechanism does not cover them by its own documentation)",
+             "instantiations of one generic function (same source object, deliberately one site)",
+             "keys over different declaring objects: separated by the Position field under the type checker's contract that distinct objects have distinct positions (assumed, not checked)"],
+    assumptions=COMMON_ASSUMPTIONS + ["names are Go identifiers", "two fields of one struct have different names",
+                                      "toPosition is injective on positions of one file set (stub contract; the native replay runs the real one on a single-line file)",
+                                      "objectPath of a package-level exported object is its name (stub contract; real objectpath fast path natively)"],
+    runs=[
+        dict(pkg="inference", files=INFER_FILES, entry="Harness_C15_FuncKeys",
+             quick=dict(params=dict(LOCMAX=3)), thorough=dict(params=dict(LOCMAX=11)), args=dict(sample_every=23)),
+        dict(pkg="inference", files=INFER_FILES, entry="Harness_C15_VarKeys", args=dict(sample_every=2)),
+        dict(pkg="inference", files=INFER_FILES, entry="Harness_C15_Stable", args=dict(sample_every=1)),
     ],
 )
